@@ -23,7 +23,7 @@ RULE = ('virtual-time schedules {silence, trickle of small non-matching reads wi
         'before/after the deadline, match arriving at T-eps / T+eps, EOF before/after T, EINTR storms while waiting} x T '
         'in {-1 (distinctive instance default), None, 0, 0.05, 1, 30} x entry points {expect, expect_exact, expect_list, '
         'expect_loop, read_nonblocking, waitnoecho} x transport classes {fdspawn, spawn(pty), SocketSpawn, PopenSpawn} x '
-        'select/poll; per call: elapsed <= T + reads*(delayafterread+20us) + 1ms (+ two 0.1 s polling steps for waitnoecho), '
+        'select/poll, incl. floods in which every read comes back exactly full (len == maxread) and a single full burst late in the wait; per call: elapsed <= T + 3*(delayafterread+50us) + 1ms (+ two 0.1 s polling steps for waitnoecho), '
         'TIMEOUT => elapsed >= T, None => no TIMEOUT inside the horizon, timeout 0 examines pending and immediately '
         'readable data, a match that arrived in time is reported. Real-time companions: trickling pty/popen children, '
         'silent socket, waitnoecho, child that closes its terminal but stays alive. non-trivial = schedule with >=2 '
@@ -40,7 +40,8 @@ DEFAULT_T = 7.77
 MATCH = b'MATCH'
 ENTRIES = ['expect', 'expect_exact', 'expect_list', 'expect_loop', 'expect_loop_str', 'read_nonblocking']
 KINDS = ['silence', 'trickle', 'burst-before', 'burst-after', 'match-before', 'match-after', 'eof-before', 'eof-after',
-         'trickle-match-before', 'match-now', 'nomatch-now']
+         'trickle-match-before', 'match-now', 'nomatch-now', 'flood-full-reads', 'late-full-burst', 'full-reads-trickle']
+SMALL_MAXREAD = 40
 
 
 def gen_virtual(rng):
@@ -75,6 +76,19 @@ def gen_virtual(rng):
         sched.append((round(base - eps, 6), 'END'))
     elif kind == 'eof-after':
         sched.append((round(base + eps, 6), 'END'))
+    elif kind == 'flood-full-reads':
+        # more than maxread bytes are always available: every read comes back exactly full
+        sched.append((0.0, b'f' * (SMALL_MAXREAD * 1500)))
+    elif kind == 'late-full-burst':
+        # silence, then one burst of exactly maxread bytes late in the wait, then silence
+        sched.append((round(base * rng.choice([0.5, 0.7, 0.9]), 6), b'g' * SMALL_MAXREAD))
+    elif kind == 'full-reads-trickle':
+        t = gap
+        n = 0
+        while t < base * 3 + 5 and n < 400:
+            sched.append((round(t, 6), b'h' * SMALL_MAXREAD))
+            t += gap
+            n += 1
     elif kind == 'match-now':
         sched.append((0.0, b'zz' + MATCH))
     elif kind == 'nomatch-now':
@@ -86,6 +100,10 @@ def gen_virtual(rng):
             'pending': rng.choice(['', '', 'ab', 'q' + MATCH.decode() + 'r']) if rng.random() < 0.3 else '',
             'eintr': sorted(round(rng.uniform(0.001, base * 1.2), 6) for _ in range(rng.choice([0, 0, 1, 3, 8]))),
             'exit_at': None}
+    if kind in ('flood-full-reads', 'late-full-burst', 'full-reads-trickle'):
+        case['maxread'] = SMALL_MAXREAD
+        if kind == 'flood-full-reads' and (Teff is None or Teff > 0.05):
+            return gen_virtual(rng)            # (the flood is finite: keep it longer than the deadline under test)
     if case['transport'] == 'popen' and T == 30:
         # the PopenSpawn class polls its queue every delayafterread (0.1 ms): keep its virtual calls short
         return gen_virtual(rng)
@@ -109,7 +127,7 @@ def build(world, case, t0):
         if p == 'END':
             p = 'HUP' if tr == 'pty' else 'EOF'
         events.append((t0 + dt, p))
-    kw = {'timeout': DEFAULT_T}
+    kw = {'timeout': DEFAULT_T, 'maxread': case.get('maxread', 2000)}
     info = {}
     if tr == 'fd':
         from pexpect import fdpexpect
@@ -218,7 +236,9 @@ def virtual_case(case, acc):
         out = 'error'
     r = max(reads[0], 1)
     dar = c.delayafterread or 0.0
-    slack = r * (dar + 20e-6) + 1e-3
+    # the loop re-computes the remaining time after every read, so the bound is T plus the overhead of
+    # a few loop iterations - not of all r reads
+    slack = 3 * (dar + 50e-6) + 1e-3
     desc = '%s/%s%s %s T=%r %s: %s after %.6f s, %d reads%s' % (
         case['transport'], 'poll' if case['poll'] else 'select', '', case['entry'], T, case['kind'], out, elapsed, r,
         (' [%r]' % exc) if out == 'error' else '')
